@@ -1,12 +1,12 @@
 # Build/verify the framework from files on disk only (offline).
-SPECS := CkptActions Executor SchedAPI TraceExec TraceClient TraceDomain TraceSibling TraceTwoLevel TraceMultistage TracePeriodic ExecFree ExecOpt OptTables GWForm CostOrder Client Process Domain DomainGen ActionUniverse ActionPairs ActionPairsGen PlanTable
+SPECS := CkptActions Executor SchedAPI TraceExec TraceClient TraceDomain TraceSibling TraceTwoLevel TraceMultistage TracePeriodic ExecFree ExecRefines ExecOptCore ExecOpt OptTables GWForm CostOrder Client Process Domain DomainGen ActionUniverse ActionPairs ActionPairsGen PlanTable
 PY := /venv/bin/python
 
 .PHONY: setup sany manifest selftest clean
 
 setup: sany
 	@mkdir -p out evidence
-	@$(PY) -m selftest.run | tail -1
+	@$(PY) -m selftest.run > out/selftest.log 2>&1; rc=$$?; tail -1 out/selftest.log; exit $$rc
 	@echo "setup ok"
 
 sany:
